@@ -95,7 +95,7 @@ def run(chk: core.Check):
         for name, t in splitpipe.families(n).items():
             texts.append(t)
             labels.append(f"{name}[{n}]")
-    garb = splitpipe.garbage(rnd, ngarb)
+    garb = splitpipe.garbage(rnd, ngarb) + splitpipe.ugarbage(rnd, ngarb // 2)
     # documents whose @string values and field values are bare identifiers from one small pool: references,
     # self-references, cycles, duplicates, undefined names
     from .. import docgen
